@@ -243,6 +243,22 @@ def main(argv=None):
         if got is None:
             continue
         m, text, c = got
+        if i % 2 == 0:
+            # every other model: some states / parameters carry a unit, a description, both or neither (what one entry declares must
+            # not depend on its neighbours in the block)
+            m_a = copy.deepcopy(m)
+            for b in m_a["blocks"]:
+                if b["kind"] in ("states", "parameters"):
+                    for en in b["entries"]:
+                        if rng.random() < 0.5:
+                            en["unit"] = rng.choice(["mV", "ms", "1/ms", "mM", "uA/cm**2"])
+                        if rng.random() < 0.4:
+                            en["desc"] = rng.choice(["membrane potential", "gate", "maximal conductance", "a, b and c", "x = 1"])
+            text_a = lang.render_model(m_a, rng)
+            c_a = pipeline.Case(drv, text_a, m_a)
+            if c_a.err is None:
+                m, text, c = m_a, text_a, c_a
+                rep.count("annotated_models")
         k = core.guarded(rep, text, check_model, rep, drv, gen, rng, m, text, c, with_c=(i % 3 == 0), with_jax=(i % 6 == 0))
         comps = {cc for b in m["blocks"] for cc in b.get("comps", [])}
         rep.case(key=text, nontrivial=bool(k) and len(m["blocks"]) >= 3)
